@@ -1,0 +1,62 @@
+//! Verification hooks. Compiled only with `--cfg daniel729_chess_verif`; the engine never
+//! behaves differently unless one of the switches below is set by a test harness.
+use crate::search::TranspositionTable;
+use std::sync::atomic::{AtomicBool, AtomicI64, AtomicU64, Ordering::Relaxed};
+
+/// Number of node-entry polls after which the stop flag is cleared (negative: disabled)
+pub static STOP_AFTER_POLLS: AtomicI64 = AtomicI64::new(-1);
+/// Polls seen since the last `reset`
+pub static POLLS: AtomicU64 = AtomicU64::new(0);
+/// Polls seen after the hook cleared the flag
+pub static POLLS_AFTER_STOP: AtomicU64 = AtomicU64::new(0);
+/// Empty the table at every node entry (table-less search)
+pub static TABLE_OFF: AtomicBool = AtomicBool::new(false);
+static STOPPED: AtomicBool = AtomicBool::new(false);
+static ENV_READ: AtomicBool = AtomicBool::new(false);
+
+#[allow(dead_code)] // called by the in-process harness, not by the engine binary
+pub fn reset(stop_after_polls: i64, table_off: bool) {
+    STOP_AFTER_POLLS.store(stop_after_polls, Relaxed);
+    TABLE_OFF.store(table_off, Relaxed);
+    POLLS.store(0, Relaxed);
+    POLLS_AFTER_STOP.store(0, Relaxed);
+    STOPPED.store(false, Relaxed);
+    ENV_READ.store(true, Relaxed);
+}
+
+pub fn node_entry(table: &mut TranspositionTable, continue_running: &AtomicBool) {
+    if !ENV_READ.swap(true, Relaxed) {
+        if let Some(n) = std::env::var("VERIF_STOP_AFTER_POLLS").ok().and_then(|v| v.parse().ok()) {
+            STOP_AFTER_POLLS.store(n, Relaxed);
+        }
+        if std::env::var("VERIF_TABLE_OFF").is_ok() {
+            TABLE_OFF.store(true, Relaxed);
+        }
+    }
+    if STOPPED.load(Relaxed) {
+        POLLS_AFTER_STOP.fetch_add(1, Relaxed);
+    }
+    let polls = POLLS.fetch_add(1, Relaxed);
+    let limit = STOP_AFTER_POLLS.load(Relaxed);
+    if limit >= 0 && polls as i64 >= limit && !STOPPED.swap(true, Relaxed) {
+        continue_running.store(false, Relaxed);
+    }
+    if TABLE_OFF.load(Relaxed) {
+        table.clear();
+    }
+}
+
+/// Named schedule point: sleeps for the milliseconds given in `VERIF_SCHED="name=ms,name=ms"`
+pub fn sched_point(name: &str) {
+    if let Ok(spec) = std::env::var("VERIF_SCHED") {
+        for item in spec.split(',') {
+            if let Some((key, millis)) = item.split_once('=') {
+                if key == name {
+                    if let Ok(millis) = millis.parse::<u64>() {
+                        std::thread::sleep(std::time::Duration::from_millis(millis));
+                    }
+                }
+            }
+        }
+    }
+}
